@@ -25,6 +25,16 @@ CHECKS = {
         technique="bounded exhaustive enumeration of inputs (all token strings up to length L, all 1-2 edit neighbours and all prefixes of seed documents) executed on the real loader",
         text="Every byte string composed of <= 4 (thorough 5) tokens of a 40-token XML alphabet, every prefix and every single (thorough: every pair of) token/byte edit of 12 seed documents and a nesting ladder are loaded strictly, leniently and probed with check_buffer; panics, aborts, hangs, out-of-range error lines and check_buffer/load disagreement are violations. Exhaustive inside these bounds, silent outside them.",
         note="Trusted: catch_unwind reports every panic; a stack overflow is only observed in the child-process ladder. Inputs longer than the bound that are not within 2 edits of a seed are not covered."),
+    "C08": dict(
+        engine="specwalk", category="model_checking", design="DESIGN.md section 5, C08",
+        technique="exhaustive walk of the specification graph: for every reachable (element type, sub-element) edge per version a minimal document with each applicable defect (and each pair of defects) injected; every document run through strict and lenient loading and judged by the harness's own table-driven validator",
+        text="For every element type x sub-element edge of 4 (thorough: all 21) versions: the valid single-edge document, its relabelling to 3-6 other versions, unknown / misplaced / version-foreign elements and attributes, every pair of exclusive alternatives (quick: <= 40 per type), every doubled child, missing SHORT-NAME, every missing required attribute, over-long values, pattern non-members, non-numbers, unknown / foreign / version-foreign enum items, nine malformed entities, forbidden text, and all pairs child-defect x parent/sibling-defect; plus trailing data, version labels, header variants and all prefixes of the seed documents. Oracles: strict Ok <=> lenient Ok without warnings and then equal models; lenient warnings => strict error equal to the first warning; lenient Err => strict Err; harness validator finds a documented violation => strict Err.",
+        note="Trusted: harness/src/common/specvalid.rs (reads the specification tables that C18 checks). Defects deeper than one edge below the chain and more than two defects per document are outside."),
+    "C17": dict(
+        engine="specwalk", category="model_checking", design="DESIGN.md section 5, C17",
+        technique="exhaustive walk of the specification graph: every (element type, sub-element) edge, attribute and partially-available enum item as a minimal document of each source version, checked against all 21 target versions; reference = strict load of the same tree printed with the target header",
+        text="For 4 (thorough: 21) source versions x every edge x all 21 target versions: check_version_compatibility is empty <=> the relabelled text loads strictly <=> the returned mask contains the target; set_version succeeds <=> the check is empty, leaves the content unchanged, and the re-serialized file loads strictly with the new version; a second file in the model must not influence the result of the first.",
+        note="Trusted: the strict loader as reference for 'valid in the target version' (C08 checks it has no holes). Documents with more than one edge below the chain are outside."),
     "C18": dict(
         engine="tablesweep", category="exploration", design="DESIGN.md section 5, C18",
         technique="complete enumeration of the finite specification tables (all names, items, versions, element definitions x versions, reference x target datatype pairs) and of all 1-edit (thorough: 2-edit) neighbour strings",
